@@ -345,13 +345,21 @@ func runC10(c *an.Ctx) {
 	// ---- R4 readers advance by what they return.
 	if rd := c.Fn("R4", "internal/corazawaf.(*bodyBufferReader).Read"); rd != nil {
 		n := 0
+		// Read itself and the private methods of the reader it delegates a branch to (readFromMemory)
+		readFns := map[*ssa.Function]bool{rd: true}
+		for _, h := range privateCallees(rd, pkgWAF) {
+			if h.Signature.Recv() != nil && strings.HasSuffix(h.Signature.Recv().Type().String(), "bodyBufferReader") {
+				readFns[h] = true
+			}
+		}
+		posAdv := regexp.MustCompile(`^\(\w+\.pos \+ (copy\(|\w+\.br\.writer\.ReadAt\(.*#0\)$)`)
 		for _, fs := range c.P.StoresToField(pkgWAF, "bodyBufferReader", "pos") {
-			if fs.Fn != rd {
+			if !readFns[fs.Fn] {
 				continue
 			}
 			n++
-			v := an.Expr(fs.Store.Val)
-			ok := strings.HasPrefix(v, "(b.pos + copy(") || strings.HasPrefix(v, "(b.pos + b.br.writer.ReadAt(") && strings.HasSuffix(v, "#0)")
+			v := tempName.ReplaceAllString(an.Expr(fs.Store.Val), "")
+			ok := posAdv.MatchString(v)
 			c.Check(ok, "R4", fmt.Sprintf("bodyBufferReader.Read: pos advance #%d", n), fs.Store.Pos(), "pos += bytes returned ("+v+")", "the reader position is advanced by "+v+", not by the number of bytes copied/read")
 		}
 		c.MinCount("R4", "pos updates in Read", n, 2)
@@ -425,8 +433,22 @@ func runC10(c *an.Ctx) {
 	// spill must follow the body to the file (the location is not remembered from the time Reader() was called)
 	if rd := c.P.Func("internal/corazawaf.(*bodyBufferReader).Read"); rd != nil {
 		nMem := 0
+		// the memory read sits in Read or in a private method of the reader that Read calls for that branch:
+		// either way the point judged is the instruction inside Read (the read itself, or the call of the helper)
+		memHelpers := map[*ssa.Function]bool{}
+		for _, h := range privateCallees(rd, pkgWAF) {
+			an.Instrs(h, func(x ssa.Instruction) {
+				if an.IsCallToMethod(x, "bytes", "Buffer", "Bytes") {
+					memHelpers[h] = true
+				}
+			})
+		}
 		an.Instrs(rd, func(in ssa.Instruction) {
-			if !an.IsCallToMethod(in, "bytes", "Buffer", "Bytes") {
+			isMem := an.IsCallToMethod(in, "bytes", "Buffer", "Bytes")
+			if cc := an.CallOf(in); cc != nil && cc.StaticCallee() != nil && memHelpers[cc.StaticCallee()] {
+				isMem = true
+			}
+			if !isMem {
 				return
 			}
 			nMem++
